@@ -362,4 +362,18 @@ example : (-2:ℝ) ≤ 3 ∧ (1:ℝ) / 100 ≤ round1 (1 / 2) := by
       have := realRint_int_cast 5; norm_num at this ⊢; exact this
     simp only [round1, rint_real, Nat.cast_ofNat, this]; norm_num
 
+
+/-- `BudgetOK` (hypothesis of `ref_pch_in_consistent`) on booster – 80 km – preamp -/
+example : BudgetOK 0 (-20)
+    [.edfa "b" newEdfa,
+     .fiber "f" { length := 80000, lossCoef := 0.0002, conIn := some 0, conOut := some 0, attIn := 0, lumps := [],
+                  raman := false, ramanGain := none, dsl := none },
+     .edfa "p" newEdfa]
+    [{ gain := 19, deltaP := some (-1), dpInt := -1, outVoa := 0, inVoa := 0, targetPch := none, retDp := -1, retVoa := 0,
+       reduction := 0, dp0 := -1, gain0 := 19, powerTarget := 18 },
+     { gain := 17, deltaP := some 0, dpInt := 0, outVoa := 0, inVoa := 0, targetPch := none, retDp := 0, retVoa := 0,
+       reduction := 0, dp0 := 0, gain0 := 17, powerTarget := 19 }] := by
+  simp only [BudgetOK, FiberP.loss, FiberP.lumped, sumLeft_eq_sum]
+  norm_num
+
 end Gnpy.Chain
